@@ -6,6 +6,7 @@ import operator
 
 from ..fdai import Interp, Obj, PyRaise, Unknown, explore, Imprecise, ExtRef
 from ..loader import AnchorError, dotted, is_self_attr, short, src, walk_no_nested
+from .mitomodel import table_entries
 from ..rules import where, mentions_name
 
 M = "operon_ai/organelles/mitochondria.py"
@@ -27,6 +28,18 @@ def C(x):
 
 def find_walker(p, mito):
     """the recursive method that takes a node and dispatches on isinstance(node, ast.X)"""
+    # semantic anchor: the method that the pathway functions hand `<parsed tree>.body` to
+    votes = {}
+    for m in mito.methods.values():
+        for n in walk_no_nested(m.node):
+            if isinstance(n, ast.Call) and n.args and isinstance(n.args[0], ast.Attribute) and n.args[0].attr == "body" and isinstance(n.args[0].value, ast.Name):
+                f = n.func
+                if isinstance(f, ast.Attribute) and isinstance(f.value, ast.Name) and f.value.id == "self" and f.attr in mito.methods:
+                    votes[f.attr] = votes.get(f.attr, 0) + 1
+    if votes:
+        best = max(votes.items(), key=lambda kv: kv[1])
+        if best[1] >= 2:
+            return mito.methods[best[0]]
     cands = []
     for m in mito.methods.values():
         params = [a for a in m.params() if a != "self"]
@@ -34,25 +47,27 @@ def find_walker(p, mito):
             continue
         n_isinst = sum(1 for n in walk_no_nested(m.node) if isinstance(n, ast.Call) and isinstance(n.func, ast.Name) and n.func.id == "isinstance"
                        and n.args and isinstance(n.args[0], ast.Name) and n.args[0].id == params[0] and "ast." in src(n.args[1]))
-        recursive = any(isinstance(n, ast.Call) and is_self_attr(n.func, m.name) for n in walk_no_nested(m.node))
-        if n_isinst >= 3 and recursive:
+        if n_isinst >= 3:
             cands.append((n_isinst, m))
     if not cands:
-        raise AnchorError("Mitochondria: no recursive isinstance-dispatching AST walker found")
+        raise AnchorError("Mitochondria: no AST walker found (no method receives `<tree>.body`, none dispatches on isinstance(node, ast.X))")
     return max(cands, key=lambda x: x[0])[1]
 
 
-def accepted_classes(walker):
-    param = [a for a in walker.params() if a != "self"][0]
-    out = []
-    for n in walk_no_nested(walker.node):
-        if isinstance(n, ast.Call) and isinstance(n.func, ast.Name) and n.func.id == "isinstance" and n.args and isinstance(n.args[0], ast.Name) and n.args[0].id == param:
-            t = n.args[1]
-            for e in (t.elts if isinstance(t, ast.Tuple) else [t]):
-                d = dotted(e)
-                if d and d.startswith("ast."):
-                    out.append(d.split(".")[1])
-    return sorted(set(out))
+def accepted_classes(W):
+    """node classes the walker evaluates: decided semantically — some path of the abstract interpretation of the
+    walker on a minimal instance of the class returns a value (however the dispatch is written)"""
+    if getattr(W, "_acc", None) is None:
+        from .c01 import all_expr_classes, minimal_instance
+        out = []
+        for cls in all_expr_classes():
+            node = minimal_instance(cls)
+            if node is None:
+                continue
+            if any(r["kind"] == "ok" for r in W.paths(node)):
+                out.append(cls.__name__)
+        W._acc = sorted(out)
+    return W._acc
 
 
 def op_of(sym):
@@ -68,6 +83,21 @@ class Walk:
         self.p = p
         self.mito = p.cls("Mitochondria", M)
         self.walker = find_walker(p, self.mito)
+        self._acc = None
+        self._cluster = None
+
+    def cluster(self):
+        """the walker and the methods it dispatches to that call back into it (its mutually recursive helpers)"""
+        if self._cluster is None:
+            from ..resolve import Resolver
+            res = Resolver(self.p)
+            fwd = res.reachable_from(self.walker)
+            out = {self.walker.key: self.walker}
+            for g in fwd:
+                if g.cls is self.mito and g.key != self.walker.key and any(h.key == self.walker.key for h in res.reachable_from(g)):
+                    out[g.key] = g
+            self._cluster = out
+        return self._cluster
 
     def run(self, o, node):
         it = Interp(self.p, o)
@@ -75,9 +105,9 @@ class Walk:
         it.events.clear()
         try:
             v = it.call_fi(self.walker, [obj, node], {})
-            return dict(kind="ok", value=v, decisions=list(it.decisions), events=list(it.events))
+            return dict(kind="ok", value=v, decisions=list(it.decisions), events=list(it.events), reads=set(it.host_reads))
         except PyRaise as e:
-            return dict(kind="raise", exc=repr(e.exc), decisions=list(it.decisions), events=list(it.events))
+            return dict(kind="raise", exc=repr(e.exc), decisions=list(it.decisions), events=list(it.events), reads=set(it.host_reads))
 
     def paths(self, node, max_paths=400):
         try:
@@ -96,7 +126,7 @@ def truth_of(decisions, sym):
 def run(p, led, tier):
     W = Walk(p)
     mito, walker = W.mito, W.walker
-    acc = accepted_classes(walker)
+    acc = accepted_classes(W)
     led.level = "translation_validation"
     led.explanation = (
         "Translation validation of the definitional interpreter, node class by node class: the walker's source is "
@@ -304,32 +334,25 @@ def run(p, led, tier):
     led.extra["programs"] = counter["programs"]
     led.extra["paths_compared_with_reference"] = counter["paths"]
     led.extra["disagreements_checked"] = sum(1 for o in led.obls if o["status"] == "failed")
-    # ---------------- R2 field exhaustiveness
-    param = [x for x in walker.params() if x != "self"][0]
-    branches = _branches(walker, param)
+    # ---------------- R2 field exhaustiveness (semantic: which attributes of the node the interpreted walker reads)
+    from .c01 import minimal_instance
     for cls in acc:
         ac = getattr(ast, cls, None)
-        if ac is None or cls not in branches:
+        if ac is None:
             continue
         fields = [f for f in ac._fields if f not in ("ctx", "kind", "type_comment")]
-        body = branches[cls]
-        read = {n.attr for st in body for n in ast.walk(st) if isinstance(n, ast.Attribute) and isinstance(n.value, ast.Name) and n.value.id == param}
-        # fields read by a helper the branch delegates the whole node to
-        for st in body:
-            for n in ast.walk(st):
-                if isinstance(n, ast.Call) and any(isinstance(x, ast.Name) and x.id == param for x in n.args) and is_self_attr(n.func):
-                    h = p.find_method(mito, n.func.attr)
-                    if h is not None and h is not walker:
-                        hp = [x for x in h.params() if x != "self"]
-                        if hp:
-                            read |= {m.attr for m in ast.walk(h.node) if isinstance(m, ast.Attribute) and isinstance(m.value, ast.Name) and m.value.id == hp[0]}
+        node = minimal_instance(ac)
+        rs = [r for r in W.paths(node) if r["kind"] == "ok"]
+        read = set()
+        for r in rs:
+            read |= {f for (c, f) in r["reads"] if c == cls}
         missing = [f for f in fields if f not in read]
         key = f"{walker.qual} ▸ {cls} ▸ fields {fields}"
         if missing:
-            led.fail("C02-R2", key, where(walker, body[0]), f"field(s) {missing} of ast.{cls} are never read: that part of the expression is silently dropped",
+            led.fail("C02-R2", key, where(walker, walker.node), f"field(s) {missing} of ast.{cls} are never read on any evaluating path: that part of the expression is silently dropped",
                      witness="round(2.567, ndigits=2) → 3" if cls == "Call" else None)
         else:
-            led.ok("C02-R2", key, where(walker, body[0]), "every semantic field is consumed")
+            led.ok("C02-R2", key, where(walker, walker.node), f"every semantic field is read on the evaluating paths ({len(rs)} path(s))")
 
     # ---------------- R3 / R5 pathways
     from ..resolve import Resolver
@@ -387,7 +410,7 @@ def run(p, led, tier):
     for m in mito.methods.values():
         # R5: post-processing of the walker's value
         for n in walk_no_nested(m.node):
-            if isinstance(n, ast.Return) and n.value is not None and m is not walker:
+            if isinstance(n, ast.Return) and n.value is not None and m.key not in W.cluster():
                 calls = [c for c in ast.walk(n.value) if isinstance(c, ast.Call) and is_self_attr(c.func, walker.name)]
                 if calls:
                     key = f"{m.qual} ▸ result of the walker"
@@ -402,17 +425,13 @@ def run(p, led, tier):
 
 # ----------------------------------------------------------------------
 def _safe_function_names(p, mito):
-    tab = mito.assigns.get("SAFE_FUNCTIONS")
-    if not isinstance(tab, ast.Dict):
-        raise AnchorError("Mitochondria.SAFE_FUNCTIONS is not a dict literal")
     out = []
-    for k, v in zip(tab.keys, tab.values):
-        if isinstance(k, ast.Constant) and isinstance(k.value, str):
-            d = dotted(v) or ""
+    for e in table_entries(p, mito, "SAFE_FUNCTIONS"):
+        if isinstance(e.key, str) and e.kind in ("ext", "lambda"):
             # callables only (constants such as pi are not called)
-            if d in ("math.pi", "math.e", "math.tau", "math.inf", "math.nan") or isinstance(v, ast.Constant):
+            if e.dotted in ("math.pi", "math.e", "math.tau", "math.inf", "math.nan"):
                 continue
-            out.append(k.value)
+            out.append(e.key)
     return out
 
 
